@@ -603,6 +603,9 @@ func (s *sim) finish() {
 }
 
 func run(t *testing.T, sc Scenario) *core.Result {
+	if sc.Whole != nil {
+		return runWhole(t, sc)
+	}
 	if sc.Conc != nil {
 		return runConc(t, sc)
 	}
